@@ -14,8 +14,15 @@ ItemArgs == {1, 3, 11, 99}
 XS == {<<>>, <<3>>, <<3, 4>>, <<4, 3, 4>>, <<11>>, <<3, 99>>, <<12, 4>>, <<3, 4, 3, 4>>}
 XSsmall == {<<>>, <<3>>, <<3, 4>>, <<12, 4>>, <<3, 99>>, <<4, 3, 4>>}
 
+VMs == {"id", "coerce", "once"}
+\* the object-item configuration (cfg: InitItems <- InitItemsObj, ...): lists of the twins 105 / 106, the not-self-equal 107
+\* and the plain 1, no validator
+InitItemsObj == {105, 106, 107}
+ItemArgsObj == {105, 106, 107, 1}
+XSObj == {<<>>, <<105>>, <<106>>, <<106, 105>>, <<107, 106>>, <<105, 105, 106>>, <<107>>, <<106, 107, 105>>}
+VMsObj == {"id"}
 Init == /\ s \in UNION {[1..n -> InitItems] : n \in 0..MaxLen}
-        /\ vm \in {"id", "coerce", "once"}
+        /\ vm \in VMs
         /\ last = [op |-> "init"]
 
 Do(op, a, xs) ==
